@@ -400,8 +400,9 @@ def _task_structured_assertions(arg):
     from ..common import V
     dsl.setup_worker()
     viol, n = [], 0
-    quants = ["OneOrMore({0})", "({0}).exactly(2)", "({0}) * 3", "AtLeastAtMost({0}, 1, 2)", "Indefinite({0}, False)", "AtLeast({0}, 0)", "({0}).at_most(None)"]
-    accept = ["Optional({0})", "({0}).exactly(1)", "AtMost({0}, 1)", "({0}) * 0"]
+    quants = ["OneOrMore({0})", "({0}).exactly(2)", "({0}) * 3", "AtLeastAtMost({0}, 1, 2)", "Indefinite({0}, False)", "AtLeast({0}, 0)", "({0}).at_most(None)",
+              "3 * ({0})", "Exactly({0}, 13)", "AtMost({0}, 2 ** 32)", "AtLeast({0}, 2 ** 33)", "({0}).at_least_at_most(0, 65536)"]
+    accept = ["Optional({0})", "({0}).exactly(1)", "AtMost({0}, 1)", "({0}) * 0", "1 * ({0})", "({0}) * 1", "0 * ({0})", "AtLeastAtMost({0}, 0, 1, False)", "AtLeastAtMost({0}, 1, 1)"]
     for inner in arg:
         try:
             dsl.build(inner)
@@ -431,7 +432,8 @@ def _task_structured_assertions(arg):
 STRUCT_OPERANDS = ["'k'", "Optional('b')", "Indefinite(AnyDigit())", "AtMost('b', 2)", "AtLeastAtMost('b', 0, 2)", "Group(Optional('b'))", "Optional('b') + Optional('c')",
                    "AnyDigit()", "Either('b', 'cd')", "Capture('b')", "Capture(Optional('b'), 'g')", "Exactly(AnyDigit(), 4)", "Pregex('{2}')", "OneOrMore('b')",
                    "Newline()", "AnyFrom('\\n', 'x')", "'b\\nc'", "NotFollowedBy('b', 'c')", "WordBoundary()", "Group('b', True)", "Either(Optional('b'), 'c')",
-                   "Backreference(1)", "Indefinite(Either('b', 'c'), False)", "AnyButFrom('\\n')", "Exactly('b', 2) + Optional('c')"]
+                   "Backreference(1)", "Indefinite(Either('b', 'c'), False)", "AnyButFrom('\\n')", "Exactly('b', 2) + Optional('c')",
+                   "FollowedBy('b', 'c')", "PrecededBy('b', 'c')", "MatchAtLineEnd('b')", "NotPrecededBy('b', 'c')", "FollowedBy('b', FollowedBy('c', 'd'))", "IPv4()", "Word()"]
 
 
 def run_C09(run):
